@@ -25,10 +25,7 @@ Record GoLib := mkGoLib {
   (* float64 negation (sign flip) *)
   f64_neg : f64 -> f64;
   (* regexp/syntax.Parse(pattern, syntaxFlags(flags)) succeeds *)
-  regex_ok : string -> Z -> bool;
-  (* strconv.Atoi result including the clamped value it returns with a range
-     error and the 0 it returns with a syntax error (any_level ignores err) *)
-  atoi_clamp : string -> Z
+  regex_ok : string -> Z -> bool
 }.
 
 (* ------------------------------------------------------------------ *)
@@ -125,9 +122,6 @@ Record Laws (L : GoLib) : Prop := mkLaws {
   parse_int0_range : forall s z, parse_int0 L s = Some z -> in_int64 z = true;
   (* ... nor a negative value for a text without a leading minus sign *)
   parse_int0_nonneg : forall s z, parse_int0 L s = Some z -> no_minus s = true -> 0 <= z;
-  (* Atoi agrees with ParseInt on canonical decimal text, clamping on overflow *)
-  atoi_dec : forall l, canon_nat_text l = true ->
-      atoi_clamp L (str_of_bytes l) = Z.min (dec_value l) max_int64;
   (* ParseFloat: a value returned without range error is finite *)
   parse_float_finite : forall s v, parse_float L s = Some (v, false) -> f64_finite v = true;
   (* json.Marshal(float64) of a positive finite non-integral value has the
